@@ -3,6 +3,7 @@
 //! (shares the case runner; see `prop_c05.rs`).
 use crate::engine_acct::AcctCfg;
 use crate::engine_sync::*;
+use crate::engine_sync::Rec;
 use crate::framework::*;
 use proptest::prelude::*;
 use serde::{Deserialize, Serialize};
@@ -63,6 +64,8 @@ pub struct ConvOutcome {
     /// a tolerated known-finding failure, reported when nothing else fails
     pub deferred: Option<Failure>,
     pub excluded: Vec<String>,
+    /// some device log of the case holds one commit hash at two positions
+    pub has_repeats: bool,
 }
 
 /// Which known findings are listed (tolerate) and whether to avoid their shapes.
@@ -75,7 +78,7 @@ pub struct Tolerate {
 }
 
 pub const K_DEVICE: &str = "c04/sync-ok-but-differs/device-log-diverged";
-pub const K_REPEAT: &str = "c04/sync-ok-but-differs/head-hash-repeats-in-longer-log";
+pub const K_REPEAT: &str = "c04/diverged/event-hash-repeats-within-a-log";
 pub const K_NEWFOLDER: &str = "c04/sync-ok-but-differs/resolved-by-later-sync";
 
 pub fn tolerate_for(shard: &Shard, case_hash: u64) -> Tolerate {
@@ -113,6 +116,16 @@ pub async fn run_conv_case(c: &ConvCase, tol: Tolerate) -> (ConvOutcome, CheckRe
     let mut out = ConvOutcome::default();
     let mut r = run_conv_inner(c, &mut out, tol).await;
     sos_core::verif::set_clock(None);
+    // hash-addressed logs misbehave in many ways once a hash repeats within a log:
+    // attribute convergence failures of such cases to that root cause
+    if out.has_repeats {
+        if let Err(f) = &r {
+            if f.signature.starts_with("c04/") && f.signature != K_DEVICE && f.signature != K_NEWFOLDER && f.signature != K_REPEAT {
+                let f2 = Failure::new(K_REPEAT, format!("[{}] {}", f.signature, f.message));
+                r = if tol.repeated_head { out.deferred = Some(f2); Ok(()) } else { Err(f2) };
+            }
+        }
+    }
     if r.is_ok() {
         if let Some(f) = out.deferred.take() {
             r = Err(f);
@@ -122,6 +135,11 @@ pub async fn run_conv_case(c: &ConvCase, tol: Tolerate) -> (ConvOutcome, CheckRe
 }
 
 struct Stop;
+
+fn has_repeated_hash(l: &[Rec]) -> bool {
+    let mut seen = BTreeSet::new();
+    l.iter().any(|r| !seen.insert(r.commit))
+}
 
 async fn run_conv_inner(c: &ConvCase, out: &mut ConvOutcome, tol: Tolerate) -> CheckResult {
     let mut w = SyncWorld::new(&c.cfg, c.server_db).await?;
@@ -192,6 +210,7 @@ async fn run_conv_inner(c: &ConvCase, out: &mut ConvOutcome, tol: Tolerate) -> C
         let a = w.devices[d].account.lock().await;
         out.offline_logs.push(all_logs(&*a).await?);
     }
+    out.has_repeats = out.offline_logs.iter().any(|m| m.values().any(|l| has_repeated_hash(l)));
     if tol.repeated_head && tol.avoid {
         for d in 0..ndev {
             for (name, l) in &out.offline_logs[d] {
@@ -302,6 +321,35 @@ async fn run_conv_inner(c: &ConvCase, out: &mut ConvOutcome, tol: Tolerate) -> C
             out.classes.insert("unconverged-with-reported-conflict".into());
             return Ok(());
         }
+        // root cause: a differing log with a repeated commit hash
+        let mut repeated = false;
+        {
+            let remote = {
+                let sv = w.server.read().await;
+                all_logs(sv.storage.as_ref().unwrap()).await?
+            };
+            for (d, _) in &differing {
+                let local = {
+                    let a = w.devices[*d].account.lock().await;
+                    all_logs(&*a).await?
+                };
+                for (k, l) in &local {
+                    if remote.get(k).map(|r| r != l).unwrap_or(true) {
+                        if has_repeated_hash(l) || remote.get(k).map(|r| has_repeated_hash(r)).unwrap_or(false) {
+                            repeated = true;
+                        }
+                    }
+                }
+            }
+        }
+        if repeated {
+            let f = Failure::new(K_REPEAT, format!("fixpoint reached after {} passes but replicas differ from the server: {:?}; {}", out.passes, differing, kinds.join("; ")));
+            if tol.repeated_head {
+                out.deferred = Some(f);
+                return Ok(());
+            }
+            return Err(f);
+        }
         let any_ok = differing.iter().any(|(d, _)| last_err[*d].is_none());
         let sig = if any_ok {
             "c04/fixpoint-success-but-diverged".to_string()
@@ -377,15 +425,10 @@ async fn do_sync(w: &mut SyncWorld, d: usize, last_err: &mut Vec<Option<(bool, S
                 }
                 let only_new_folders = !differing.is_empty()
                     && differing.iter().all(|k| k.strip_prefix("folder:").map(|id| !server_folders_before.contains(id) || !device_folders_before.contains(id)).unwrap_or(false));
-                // one log is a proper prefix of the other and the longer one repeats
-                // the shorter one's head hash in its tail
+                // a differing log holds the same commit hash at two positions (a byte-identical
+                // event appended again): diff / rewind / scan address events by hash
                 let repeated = differing.iter().any(|k| {
-                    let (Some(l), Some(r)) = (local.get(k), remote.get(k)) else { return false };
-                    let (short, long) = if l.len() < r.len() { (l, r) } else { (r, l) };
-                    match short.last() {
-                        Some(h) => long.len() > short.len() && long[..short.len()] == short[..] && long[short.len()..].iter().any(|x| x.commit == h.commit),
-                        None => false,
-                    }
+                    [local.get(k), remote.get(k)].into_iter().flatten().any(|l| has_repeated_hash(l))
                 });
                 let device_diverged = differing.iter().any(|k| k == "device") && {
                     let (l, r) = (&local["device"], &remote["device"]);
